@@ -82,6 +82,7 @@ class TMap(object):
         self.copy = copy
         self.inner = inner      # e.g. mystic.python_map.python_map: the library's own serial map does the iteration
         self.ncalls = 0
+        self.max_calls = 800
 
     def __call__(self, f, *args, **kwds):
         tr = self.trace
@@ -89,6 +90,8 @@ class TMap(object):
         n = len(items)
         k = self.ncalls
         self.ncalls += 1
+        if self.ncalls > getattr(tr, 'max_map_calls', self.max_calls):
+            raise Horizon('%d map calls' % self.ncalls)
         tr.map_sizes.append(n)
         tr.work.append([id(it[0]) for it in items])
         for i, it in enumerate(items):
@@ -190,6 +193,47 @@ def probe_steps(kinds, trace):
             cls._Step = orig
 
 
+# ------------------------------------------------------------------ runaway guards
+@contextlib.contextmanager
+def guarded_default_map(trace, max_calls):
+    """the library's default map (looked up when an ensemble is constructed) raises Horizon after too many
+    calls: an ensemble loop that spins without ever calling the cost would otherwise never return"""
+    import mystic.python_map as pm
+    orig = pm.python_map
+    n = [0]
+
+    def python_map(func, *arglist, **kwds):
+        n[0] += 1
+        if n[0] > max_calls:
+            raise Horizon('%d map calls' % n[0])
+        return orig(func, *arglist, **kwds)
+    pm.python_map = python_map
+    try:
+        yield
+    finally:
+        pm.python_map = orig
+
+
+@contextlib.contextmanager
+def wall_guard(seconds):
+    """last resort against a spin the other guards do not see (reported as clause 'runaway')"""
+    import signal
+
+    def onalarm(sig, frame):
+        raise Horizon('no return within %d s wall' % seconds)
+    try:
+        old = signal.signal(signal.SIGALRM, onalarm)
+    except ValueError:      # not the main thread
+        yield
+        return
+    signal.setitimer(signal.ITIMER_REAL, seconds, 1.0)
+    try:
+        yield
+    finally:
+        signal.setitimer(signal.ITIMER_REAL, 0)
+        signal.signal(signal.SIGALRM, old)
+
+
 # ------------------------------------------------------------------ randomness
 class HybridRandom(env.SeededRandom):
     """seeded everywhere, except numpy.random.rand whose every entry is a choice point"""
@@ -208,6 +252,19 @@ class HybridRandom(env.SeededRandom):
 
 
 # ------------------------------------------------------------------ alphabets
+class Ramp(object):
+    """penalty 10*max(0, sum(x)-1); summed left to right on python floats so that the value does not depend on
+    the container the solver hands over (builtin sum is compensated for exact floats only)"""
+    kind = 'ramp'
+    tag = 'pen:ramp'
+
+    def __call__(self, x):
+        t = 0.0
+        for v in x:
+            t = t + float(v)
+        return 10.0 * max(0.0, t - 1.0)
+
+
 def make_term(name):
     import mystic.termination as mt
     if name is None:
@@ -297,16 +354,20 @@ def execute(cfg, chooser=None, max_rounds=400):
     R.rounds = []          # step loop: (message, calls so far) after every ensemble Step
     R.ret = None
     R.con = Con(*_consym(cfg['con'])) if cfg.get('con') else None
-    R.pen = Pen(cfg['pen']) if cfg.get('pen') else None
+    R.pen = Ramp() if cfg.get('pen') else None
     R.term = make_term(cfg.get('term'))
     box = box_of(cfg.get('box'), dim) if cfg.get('box') else None
     R.box = box
     lim = cfg.get('limits')
     kinds = [cfg['nested']]
+    # every round of a stepping ensemble costs each live member one iteration and at least one evaluation
+    g_, e_ = (lim[0], lim[1]) if lim else (None, None)
+    tr.max_map_calls = cfg.get('max_map_calls', g_ + 10 if g_ is not None else (e_ + 50 if e_ is not None else 400))
     old = sys.stdout
     sys.stdout = io.StringIO()
     try:
-        with env.owned_random(rng), probe_steps(kinds, tr):
+        with env.owned_random(rng), probe_steps(kinds, tr), guarded_default_map(tr, tr.max_map_calls), \
+                wall_guard(cfg.get('wall_guard', 60)):
             try:
                 if cfg.get('api', 'class') == 'wrapper':
                     R.ret = _wrapper(cfg, cost, tr, R)
